@@ -423,6 +423,19 @@ func (e *c17Env) notePos(ch int, top, ep uint64, stored bool) {
 
 // ---- generator pieces shared by the drivers ----
 
+func c17Node(meta time.Duration, forceZero bool) *Node {
+	n, err := New(Config{LogLevel: LogLevelNone, HistoryMetaTTL: meta})
+	if err != nil {
+		panic(err)
+	}
+	if forceZero {
+		n.config.HistoryMetaTTL = 0 // the hub-level "never discard metadata" branch
+	}
+	return n
+}
+
+
+
 func c17Pick[T any](r *rand.Rand, xs ...T) T { return xs[r.Intn(len(xs))] }
 
 func (e *c17Env) genHistory(r *rand.Rand, ch int) c17Op {
@@ -497,4 +510,49 @@ func c17GenAdvance(r *rand.Rand) int64 {
 	default:
 		return 400000
 	}
+}
+
+// ---- a full Node on top of the recorded broker (C43 / C02 / C03 drivers) ----
+
+// c17BrokerWrap makes Node.Run register the recording handler (which forwards to the node).
+type c17BrokerWrap struct {
+	*MemoryBroker
+	env *c17Env
+}
+
+func (w *c17BrokerWrap) RegisterBrokerEventHandler(h BrokerEventHandler) error {
+	w.env.start(h)
+	return nil
+}
+
+// c17NewNodeEnv must be called inside a synctest bubble at virtual time 0. It creates a Node whose
+// broker is a real MemoryBroker (sweepers ticking at x.700 s) and runs it. zeroMeta forces the
+// hub-level meta TTL to 0 (never discard metadata).
+func c17NewNodeEnv(cfg Config, zeroMeta bool, setup func(n *Node)) (*c17Env, *Node) {
+	cfg.LogLevel = LogLevelNone
+	n, err := New(cfg)
+	if err != nil {
+		panic(err)
+	}
+	if zeroMeta {
+		n.config.HistoryMetaTTL = 0
+	}
+	e := c17NewEnv(n) // sleeps to x.700 and creates the broker
+	n.SetBroker(&c17BrokerWrap{MemoryBroker: e.b, env: e})
+	if setup != nil {
+		setup(n)
+	}
+	if err := n.Run(); err != nil {
+		panic(err)
+	}
+	return e, n
+}
+
+// c17CloseNode shuts the node down and lets the remaining timers of the bubble run out.
+func c17CloseNode(n *Node, clients ...*Client) {
+	for _, c := range clients {
+		_ = c.close(DisconnectForceNoReconnect)
+	}
+	_ = n.Shutdown(context.Background())
+	time.Sleep(5 * time.Second)
 }
